@@ -62,4 +62,8 @@ VARIANTS = [
       "        expectation = np.asarray(mom1)\n        variance = np.abs(np.asarray(mom2) - expectation * expectation)\n", file=GO),
     V("C15-n41-array-variance-on-a-copy", "neutral", "        expectation = mom1\n        variance = [mom2[i] - ex * ex for i, ex in enumerate(expectation)]\n        for i, v in enumerate(variance):\n            if v < 0.0:\n                # When the variance is zero, it can be set to something negative\n                # because of numerical errors\n                variance[i] = -v\n",
       "        expectation = np.asarray(mom1)\n        variance = np.array(mom2, dtype=float)\n        variance -= expectation * expectation\n        variance = np.abs(variance)\n", file=GO),
+    # D11: the key under which distribution objects are shared determines all their inputs
+    V("C15-b50-distributions-shared-by-description-only", "break", "            distr_key = (distr_info, a[d], b[d])\n", "            distr_key = distr_info\n", "C15.D11", file=GO),
+    V("C15-b51-key-lacks-upper-end", "break", "            distr_key = (distr_info, a[d], b[d])\n", "            distr_key = (distr_info, a[d])\n", "C15.D11", file=GO),
+    V("C15-n50-key-nested-interval", "neutral", "            distr_key = (distr_info, a[d], b[d])\n", "            distr_key = (distr_info, (a[d], b[d]))\n", file=GO),
 ]
